@@ -1,0 +1,11 @@
+//go:build verif
+
+// Contracts for the verification engine in /verif (comment-only file; it is
+// compiled only with the build tag "verif" and contains no code).
+
+package pbproto
+
+// C15: decoding never writes into a shared status
+//@ func (*pbproto).Unpack
+//@   property C15
+//@   requires msgOwnStatus(as(m, type(*socket.message)))
